@@ -103,6 +103,9 @@ def rule_sets(fpA, fpB):
         "duplicate-prefix-strict-first": [{"prefix": "/app/", "require_cert": True, "allowed_fingerprints": [fpA]}, {"prefix": "/app/", "require_cert": False}],
         "duplicate-prefix-lax-first": [{"prefix": "/docs/", "require_cert": False}, {"prefix": "/docs/", "require_cert": True, "allowed_fingerprints": [fpB]}, {"prefix": "/app/", "require_cert": True}],
         "decomposed-unicode-dir": [{"prefix": "/re\u0301serve\u0301/", "require_cert": True, "allowed_fingerprints": [fpA]}],
+        # list entries that are NOT fingerprints of anybody: a placeholder, the tail and the head of B's fingerprint, B's
+        # fingerprint with its last digit changed - B is not on this list
+        "allow-list-with-partial-entries": [{"prefix": "/app/", "require_cert": True, "allowed_fingerprints": [fpA, "", fpB[-8:], fpB[:20], fpB[:-1] + ("0" if fpB[-1] != "0" else "1")]}],
     }
 
 
